@@ -683,7 +683,7 @@ def rule_triple(ctx: Ctx) -> RuleResult:
         cfg = cfg_of(f.node)
         at = flow.node_of(node)
         site = f"{f.qualname}: `{norm(node)[:90]}`"
-        if not args:
+        if not args or all(isinstance(v, ast.Constant) and v.value is None for v in args.values()):
             res.ok(site, "the empty instance: no string, no type, no fields", nontrivial=False)
             continue
         if set(args) != {"string", "type", "fields"}:
